@@ -19,6 +19,7 @@ namespace verif {
 // budget of spurious compare_exchange_weak failures per run (declared in vshim.hpp, used by verif::atomic<T>::cas)
 int g_casfail_left = 0;
 int g_ctor_sched = 0;   // see vshim.hpp; reset by begin()
+int g_post_unlock_sched = 0;   // see vshim.hpp; reset by begin()
 int g_latewake_left = 0;
 
 namespace {
@@ -673,6 +674,7 @@ void begin(const Config& cfg)
     S.spurious_left = cfg.spurious_budget;
     g_casfail_left = cfg.casfail_budget;
     g_ctor_sched = 0;
+    g_post_unlock_sched = 0;
     g_latewake_left = cfg.latewake_budget;
     S.names.clear();
     S.ranges.clear();
